@@ -163,8 +163,51 @@ func (x *Exec) specForm(name string, e *ast.CallExpr, st *State, sp *SpecCtx) (V
 		}
 		x.fresh++
 		k := Sym(fmt.Sprintf("%s?%d", id.Name, x.fresh), sortOf(mt.Key()))
-		body := x.specArgBool(e.Args[2], st, sp.with(id.Name, Value{T: mt.Key(), Term: k}))
+		kvv := Value{T: mt.Key(), Term: k}
+		if stt, isStruct := mt.Key().Underlying().(*types.Struct); isStruct {
+			kvv.Fields = map[string]Value{}
+			for i := 0; i < stt.NumFields(); i++ {
+				f := stt.Field(i)
+				kvv.Fields[f.Name()] = Value{T: f.Type(), Term: App("fld_"+f.Name(), sortOf(f.Type()), k)}
+			}
+		}
+		body := x.specArgBool(e.Args[2], st, sp.with(id.Name, kvv))
 		return bv(Forall([]*Term{k}, Implies(Select(m.Dom, k), body)))
+	case "forallkey2":
+		// forallkey2(p, m, k, body): for every key p of the inner map m[k] (map of maps; struct keys get their fields)
+		id, ok := e.Args[0].(*ast.Ident)
+		if !ok || len(e.Args) != 4 {
+			x.errorf("forallkey2(p, mapofmaps, key, body)")
+			return Value{Term: False}, true
+		}
+		m := x.eval(e.Args[1], st, sp)
+		k1 := x.eval(e.Args[2], st, sp)
+		if m.Dom == nil || m.Dom2 == nil || m.T == nil || k1.Term == nil {
+			x.errorf("forallkey2: not a tracked map of maps")
+			return Value{Term: False}, true
+		}
+		mt, isMap := m.T.Underlying().(*types.Map)
+		if !isMap {
+			x.errorf("forallkey2: not a map")
+			return Value{Term: False}, true
+		}
+		inner, isMap2 := mt.Elem().Underlying().(*types.Map)
+		if !isMap2 {
+			x.errorf("forallkey2: not a map of maps")
+			return Value{Term: False}, true
+		}
+		x.fresh++
+		pk := Sym(fmt.Sprintf("%s?%d", id.Name, x.fresh), sortOf(inner.Key()))
+		pv := Value{T: inner.Key(), Term: pk}
+		if stt, isStruct := inner.Key().Underlying().(*types.Struct); isStruct {
+			pv = Value{T: inner.Key(), Term: pk, Fields: map[string]Value{}}
+			for i := 0; i < stt.NumFields(); i++ {
+				f := stt.Field(i)
+				pv.Fields[f.Name()] = Value{T: f.Type(), Term: App("fld_"+f.Name(), sortOf(f.Type()), pk)}
+			}
+		}
+		body := x.specArgBool(e.Args[3], st, sp.with(id.Name, pv))
+		return bv(Forall([]*Term{pk}, Implies(And(Select(m.Dom, k1.Term), Select(Select(m.Dom2, k1.Term), pk)), body)))
 	case "sum":
 		// sum(k, lo, hi, cap, body): capacity expansion, cap must be a literal
 		if len(e.Args) != 5 {
